@@ -1235,7 +1235,7 @@ Section Pure.
   Notation eventT := (@event V).
   Notation outcomeT := (@outcome V CS GS SCP SINFO).
 
-  Hypothesis H_pure : forall k cp v e r e', EOK e -> execP k cp v e = (r, e') ->
+  Hypothesis H_pure : forall k v e r e', EOK e -> execP k None v e = (r, e') ->
     EOK e' /\ match body k v with
               | Some o => r = TDone o /\ tr e' = tr e ++ trU k v
               | None => exists x, r = TFail x
@@ -1246,17 +1246,18 @@ Section Pure.
 
   Definition ttrP (t : taskT) : list X := trU (t_key t) (t_in t).
 
-  Lemma exec_all_pure : forall (ts : list taskT) e, EOK e ->
+  Lemma exec_all_pure : forall (ts : list taskT) e, EOK e -> Forall (fun t => t_cp t = None) ts ->
     EOK (snd (exec_all execP ts e)) /\
     ((Forall (defined body) ts /\ fst (exec_all execP ts e) = rsU_of (SCP := SCP) (SINFO := SINFO) zero body ts /\
       tr (snd (exec_all execP ts e)) = tr e ++ flat_map ttrP ts) \/
      (~ Forall (defined body) ts /\ first_fail (fst (exec_all execP ts e)) <> None)).
   Proof.
-    induction ts as [|t ts IH]; intros e He.
+    induction ts as [|t ts IH]; intros e He Hcp.
     - simpl. split; auto. left. split; [constructor|]. split; [reflexivity|rewrite app_nil_r; reflexivity].
-    - cbn [exec_all]. destruct (execP (t_key t) (t_cp t) (t_in t) e) as [r e1] eqn:Hx.
-      destruct (H_pure _ _ _ _ _ _ He Hx) as [He1 Hb].
-      destruct (IH e1 He1) as [He2 Hc]. destruct (exec_all execP ts e1) as [rest e2]. cbn [fst snd] in *.
+    - inversion Hcp as [|? ? Hcp1 Hcp2]; subst.
+      cbn [exec_all]. rewrite Hcp1. destruct (execP (t_key t) None (t_in t) e) as [r e1] eqn:Hx.
+      destruct (H_pure _ _ _ _ _ He Hx) as [He1 Hb].
+      destruct (IH e1 He1 Hcp2) as [He2 Hc]. destruct (exec_all execP ts e1) as [rest e2]. cbn [fst snd] in *.
       split; [exact He2|].
       destruct (body (t_key t) (t_in t)) as [o|] eqn:Eb.
       + destruct Hb as [-> Htr]. destruct Hc as [(Hd & Hr & Ht)|(Hnd & Hff)].
@@ -1280,32 +1281,32 @@ Section Pure.
     first_fail rs <> None -> exists x, decide zero fold getr bf af cs gs rs = Failed x.
   Proof. intros bf af cs gs rs H. unfold decide. destruct (first_fail rs); [eauto|congruence]. Qed.
 
-  Lemma events_of_keys_only : forall (ts : list taskT) (rs rs' : list (N * texecT)),
-    map (fun r => is_rerun (snd r)) rs = map (fun r => is_rerun (snd r)) rs' -> events_of ts rs = events_of ts rs'.
-  Proof.
-    induction ts as [|t ts IH]; intros [|r rs] [|r' rs'] H; simpl in *; try discriminate; auto.
-    inversion H. f_equal; [congruence|auto].
-  Qed.
-
   Definition TUP (l : list eventT) : list X := flat_map (fun ev => trU (ev_key ev) (ev_in ev)) l.
 
   Lemma events_U_trace : forall ts' : list taskT,
     TUP (events_of ts' (rsU_of (SCP := SCP) (SINFO := SINFO) zero body ts')) = flat_map ttrP ts'.
   Proof. induction ts' as [|t ts IH]; simpl; auto. unfold TUP in *. simpl. rewrite IH. reflexivity. Qed.
 
-  Lemma pure_sim : forall fuel (s : lstateT) e, EOK e ->
+  Lemma pure_sim : forall fuel (s : lstateT) e, fresh_state s -> EOK e ->
     match iterUU fuel s tt [] with
     | (ODone v, lU, _) => exists eP, iterP fuel s e [] = (ODone v, lU, eP) /\ EOK eP /\ tr eP = tr e ++ TUP lU
-    | (OFailed _, _, _) => exists x lP eP, iterP fuel s e [] = (OFailed x, lP, eP)
-    | (OLimit, _, _) => exists lP eP, iterP fuel s e [] = (OLimit, lP, eP)
-    | (OInterrupted i c, _, _) => exists lP eP, iterP fuel s e [] = (OInterrupted i c, lP, eP)
+    | (OFailed _, _, _) => exists x lP eP, iterP fuel s e [] = (OFailed x, lP, eP) /\ EOK eP
+    | (OLimit, _, _) => exists lP eP, iterP fuel s e [] = (OLimit, lP, eP) /\ EOK eP
+    | (OInterrupted i c, _, _) => False
     end.
   Proof.
-    induction fuel as [|f IH]; intros s e He.
+    induction fuel as [|f IH]; intros s e Hfr He.
     { simpl. eauto. }
     cbn [iterate]. unfold step.
-    destruct (run_pres pre (ls_next s) (ls_gs s)) as [ts gs1].
-    destruct (exec_all_pure ts e He) as [He1 Hc].
+    assert (Hcps : Forall (fun t : taskT => t_cp t = None) (fst (run_pres pre (ls_next s) (ls_gs s)))).
+    { pose proof (run_pres_cps pre (ls_next s) (ls_gs s)) as Hc.
+      assert (Hn : Forall (fun t : taskT => t_cp t = None) (ls_next s)).
+      { eapply Forall_impl; [|exact Hfr]. intros a [_ ?]; auto. }
+      revert Hc Hn. generalize (fst (run_pres pre (ls_next s) (ls_gs s))). generalize (ls_next s).
+      induction l as [|a l IHl]; intros [|b l0] Hm Hn; simpl in *; try discriminate; auto.
+      inversion Hm. inversion Hn; subst. constructor; [congruence|eauto]. }
+    destruct (run_pres pre (ls_next s) (ls_gs s)) as [ts gs1]. cbn [fst] in Hcps.
+    destruct (exec_all_pure ts e He Hcps) as [He1 Hc].
     destruct (exec_all execP ts e) as [rsP e1] eqn:HxP. cbn [fst snd] in *.
     destruct Hc as [(Hd & Hr & Ht)|(Hnd & Hff)].
     - destruct (exec_all_U_cases (SINFO := SINFO) zero body ts tt) as [[_ HxU]|Hf].
@@ -1315,23 +1316,55 @@ Section Pure.
             cbn [exec_all]. unfold execU at 1. rewrite Ho. rewrite (IH Hd'). cbn [rsU_of map]. unfold bodyd. rewrite Ho. reflexivity. }
           rewrite HxU in Hf. cbn [fst] in Hf. congruence. }
       rewrite HxU. subst rsP.
-      destruct (decide zero fold getr [] [] (ls_cs s) gs1 (rsU_of (SCP := SCP) (SINFO := SINFO) zero body ts)) as [s'|v|i c|x] eqn:Hdec; cbn [app].
-      + rewrite (iterate_log0 zero fold getr pre (execU body)), (iterate_log0 zero fold getr pre execP).
-        specialize (IH s' e1 He1).
-        destruct (iterUU f s' tt []) as [[oU lU] eU]. destruct oU as [v|i c|x|].
-        * destruct IH as (eP & HP & HeP & HtP). rewrite HP. exists eP. split; [reflexivity|]. split; [exact HeP|].
-          rewrite HtP, Ht. unfold TUP. rewrite flat_map_app. fold (TUP (events_of ts (rsU_of (SCP := SCP) (SINFO := SINFO) zero body ts))).
-          rewrite events_U_trace, app_assoc. reflexivity.
-        * destruct IH as (lP & eP & HP). rewrite HP. eauto.
-        * destruct IH as (x' & lP & eP & HP). rewrite HP. eauto.
-        * destruct IH as (lP & eP & HP). rewrite HP. eauto.
-      + exists e1. split; [reflexivity|]. split; [exact He1|]. rewrite Ht, events_U_trace. reflexivity.
-      + eauto.
-      + eauto.
+      destruct (rsU_facts (SCP := SCP) (SINFO := SINFO) zero body ts) as (H1 & H2 & H3 & H4).
+      destruct ts as [|t0 ts0] eqn:Ets.
+      { cbn. exists eNoTasks, [], e1. auto. }
+      rewrite <- Ets in *.
+      assert (Hne : rsU_of (SCP := SCP) (SINFO := SINFO) zero body ts <> []) by (rewrite Ets; simpl; discriminate).
+      rewrite (decide_all_done zero fold getr [] [] (ls_cs s) gs1 _ H1 H2 H3 Hne).
+      rewrite afters_nil'. unfold finish.
+      destruct (calc fold getr (ls_cs s) (outs (rsU_of (SCP := SCP) (SINFO := SINFO) zero body ts))) as [[cs2 ready]|x|] eqn:Hcalc;
+        cbn [app chan_err].
+      + destruct (nlist_get kEnd ready) as [v|] eqn:Hend; cbn [app].
+        * exists e1. split; [reflexivity|]. split; [exact He1|]. rewrite Ht, events_U_trace. reflexivity.
+        * rewrite hits_nil'. cbn [is_nil andb].
+          rewrite (iterate_log0 zero fold getr pre (execU body)), (iterate_log0 zero fold getr pre execP).
+          assert (Hfr' : fresh_state {| ls_cs := cs2; ls_next := map (@mk_task V SCP) ready; ls_gs := gs1 |})
+            by (apply map_mk_task_fresh).
+          specialize (IH _ e1 Hfr' He1).
+          destruct (iterUU f {| ls_cs := cs2; ls_next := map mk_task ready; ls_gs := gs1 |} tt []) as [[oU lU] eU].
+          destruct oU as [v|i c|x|].
+          -- destruct IH as (eP & HP & HeP & HtP). rewrite HP. exists eP. split; [reflexivity|]. split; [exact HeP|].
+             rewrite HtP, Ht. unfold TUP. rewrite flat_map_app. fold (TUP (events_of ts (rsU_of (SCP := SCP) (SINFO := SINFO) zero body ts))).
+             rewrite events_U_trace, app_assoc. reflexivity.
+          -- exact IH.
+          -- destruct IH as (x' & lP & eP & HP & HeP). rewrite HP. eauto 6.
+          -- destruct IH as (lP & eP & HP & HeP). rewrite HP. eauto.
+      + eauto 6.
+      + eauto 6.
     - pose proof (exec_all_U_fail ts tt Hnd) as HfU.
       destruct (exec_all (execU body) ts tt) as [rsU eU]. cbn [fst] in HfU.
       destruct (decide_fail [] [] (ls_cs s) gs1 rsU HfU) as [xU HdU].
       destruct (decide_fail [] [] (ls_cs s) gs1 rsP Hff) as [xP HdP].
-      rewrite HdU, HdP. eauto.
+      rewrite HdU, HdP. eauto 6.
+  Qed.
+
+  Lemma pure_start : forall fuel cs0 (gs0 : GS) x e, EOK e ->
+    match start zero fold getr pre (execU (SCP := SCP) (SINFO := SINFO) body) [] [] fuel cs0 gs0 x tt with
+    | (ODone v, lU, _) => exists eP, start zero fold getr pre execP [] [] fuel cs0 gs0 x e = (ODone v, lU, eP) /\
+                                     EOK eP /\ tr eP = tr e ++ TUP lU
+    | (OFailed _, _, _) => exists x' lP eP, start zero fold getr pre execP [] [] fuel cs0 gs0 x e = (OFailed x', lP, eP) /\ EOK eP
+    | (OLimit, _, _) => exists lP eP, start zero fold getr pre execP [] [] fuel cs0 gs0 x e = (OLimit, lP, eP) /\ EOK eP
+    | (OInterrupted i c, _, _) => False
+    end.
+  Proof.
+    intros fuel cs0 gs0 x e He. unfold start, start_gen, init_gen.
+    destruct (calc fold getr cs0 [(kStart, x)]) as [[cs1 ready]|x0|]; cbn [out_of chan_err].
+    - destruct (nlist_get kEnd ready) as [v|]; cbn [out_of].
+      + exists e. split; [reflexivity|]. split; [exact He|]. simpl. rewrite app_nil_r. reflexivity.
+      + rewrite hits_nil'. cbn [is_nil orb].
+        apply pure_sim; auto. apply map_mk_task_fresh.
+    - eauto 6.
+    - eauto 6.
   Qed.
 End Pure.
